@@ -11,16 +11,32 @@ def parseRef (x : Json) : GName × Ref :=
   | [k, i, o] => (nameOf k, (asNat i, nameOf o))
   | _ => ([], (0, []))
 
+/-- payload: a number (atom) or ["fuse", child, cin, parent, pout, [pins], [pouts]] -/
+partial def parsePayload (j : Json) : Payload :=
+  match j with
+  | .arr a =>
+    match a.toList with
+    | [_, c, cin, p, pout, pins, pouts] =>
+      .fused (parsePayload c) (nameOf cin) (parsePayload p) (nameOf pout) ((asArr pins).map nameOf) ((asArr pouts).map nameOf)
+    | _ => .atom 0
+  | _ => .atom (asNat j)
+
+def payloadJson : Payload → Json
+  | .atom n => toJson n
+  | .fused c cin p pout pins pouts =>
+    Json.arr #[Json.str "fuse", payloadJson c, jName cin, payloadJson p, jName pout,
+               Json.arr (pins.map jName).toArray, Json.arr (pouts.map jName).toArray]
+
 def parseNode (j : Json) : Node :=
   { name := (getStr j "name").toList, outputs := (getArr j "outputs").map nameOf,
-    payload := getNat j "payload", inputs := (getArr j "inputs").map parseRef }
+    payload := parsePayload (j.getObjValD "payload"), inputs := (getArr j "inputs").map parseRef }
 
 def parseGraph (j : Json) : Graph :=
   { nodes := (getArr j "nodes").map parseNode, sinks := (getArr j "sinks").map asNat }
 
 def nodeJson (n : Node) : Json :=
   Json.mkObj [("name", jName n.name), ("outputs", Json.arr (n.outputs.map jName).toArray),
-              ("payload", toJson n.payload),
+              ("payload", payloadJson n.payload),
               ("inputs", Json.arr (n.inputs.map fun x => Json.arr #[jName x.1, toJson x.2.1, jName x.2.2]).toArray)]
 
 def graphJson (g : Graph) : Json :=
@@ -63,6 +79,32 @@ def splitJson (r : SplitResult) : Json :=
               ("parts", Json.arr (r.parts.map fun p => Json.arr #[toJson p.1, nats p.2]).toArray),
               ("cuts", Json.arr (r.cuts.map cutJson).toArray)]
 
+def parsePairs (j : Json) : Option (List (GName × GName)) :=
+  match j with
+  | .arr a => some (a.toList.map fun p => match asArr p with | [x, y] => (nameOf x, nameOf y) | _ => ([], []))
+  | _ => none
+
+/-- expander of the harness: by node name -/
+def expandFun (j : Json) : Node → Option Expansion :=
+  let table : List (GName × Expansion) := (getArr j "exp").map fun p =>
+    match asArr p with
+    | [nm, e] => (nameOf nm, { sub := parseGraph (e.getObjValD "sub"), inputMap := parsePairs (e.getObjValD "imap"),
+                               outputMap := parsePairs (e.getObjValD "omap") })
+    | _ => ([], { sub := { nodes := [], sinks := [] }, inputMap := none, outputMap := none })
+  fun n => table.lookup n.name
+
+/-- acceptance predicate of the harness: mode "all" | "table" (parent names listed) | "linear" -/
+def acceptFun (j : Json) : Node → GName → Node → GName → Bool :=
+  let mode := getStr j "mode"
+  let names := (getArr j "accept").map nameOf
+  fun parent pout cur _cin =>
+    match mode with
+    | "all" => true
+    | "table" => names.contains parent.name
+    | "linear" => parent.isProcessor && cur.isProcessor && pout == defaultOutput && parent.outputs.length == 1 &&
+                  cur.inputs.length == 1
+    | _ => false
+
 def c11Step (_ : Unit) (j : Json) : Unit × Json :=
   let g := parseGraph (j.getObjValD "g")
   let out : Json :=
@@ -70,6 +112,8 @@ def c11Step (_ : Unit) (j : Json) : Unit × Json :=
     | "copy" => result ((copyGraph g).map graphJson)
     | "rename" => result ((renameGraph (renameFun j) g).map graphJson)
     | "dedup" => result ((dedupGraph samePayload g).map graphJson)
+    | "expand" => result ((expandGraph (expandFun j) g).map graphJson)
+    | "fuse" => result ((fuseGraph (inlineFuse (acceptFun j)) g).map graphJson)
     | "split" => result ((splitGraph (keyFun j) cutNameC g).map splitJson)
     | _ => Json.str "bad-op"
   ((), out)
